@@ -139,6 +139,13 @@ class StmtMixin:
             ls = self.list_seq(st, v)
             if ls is not None:
                 return self.unpack(st, SV('seq', ls), n)
+            if z3.is_app(v.v) and v.v.decl().name() == 'py_box_tup':
+                seq = v.v.arg(0)
+                ln = Z.concrete_int(z3.Length(seq))
+                if ln is not None:
+                    if ln != n:
+                        return [(k, s3, e) for k, s3, e in self.raise_builtin(st, 'ValueError', [sv_str('unpack')])]
+                    return [('ok', st, [sv_ref(z3.simplify(seq[i])) for i in range(n)])]
             # opaque pair (e.g. an item of dict.items()): assumed to be an n-tuple when it is a tuple; else user-level iteration
             res = []
             for s2, flag in self.split(st, z3.And(Z.is_tuple(v.v), z3.Length(Z.tupitems(v.v)) == n)):
